@@ -229,6 +229,28 @@ def _r3(model, res, m):
                 v = guards.const_number(n.args[1], consts)
                 if v is not None:
                     radix.append((src(n), v))
+        # positional numeration: within one step the digit (x % 26) and the carry (x // 26) come from the same x
+        if fname == 'column_index_to_label':
+            blocks = []
+            for g_ in [f] + [m.functions[n.func.id] for n in body_nodes if isinstance(n, ast.Call) and isinstance(n.func, ast.Name)
+                             and n.func.id in m.functions and n.func.id not in ('column_label_to_index', 'column_index_to_label')]:
+                blocks.append(g_.body)
+                for n in walk_no_defs(g_):
+                    if isinstance(n, (ast.While, ast.For)):
+                        blocks.append(n.body)
+                    elif isinstance(n, ast.If):
+                        blocks.append(n.body)
+                        blocks.append(n.orelse)
+            bad_steps = []
+            for blk in blocks:
+                bad_steps += dividend_mismatches(blk, consts, lambda r: r is not None and r == 26)
+            res.ob('R3', '%s:%s' % (m.name, fname), 'digit and carry of one step are taken from the same dividend', not bad_steps,
+                   '; '.join('%s vs %s' % (_show_lin(a), _show_lin(b)) for _, a, _, b in bad_steps))
+            for mn, md, dn, dd in bad_steps[:1]:
+                res.violation('R3', '%s:%s:digit-carry-dividends' % (m.name, fname), m.where(dn),
+                              'one step of the conversion takes its letter from (%s) %% 26 but carries (%s) // 26 on: digit and carry of a '
+                              'positional step must come from the same dividend, otherwise the letters no longer add up to the index (labels '
+                              'and indices stop corresponding one-to-one)' % (_show_lin(md), _show_lin(dd)), func=fname)
         # exact integer arithmetic: a quotient taken through a float is wrong from 2**53 on (labels of 12+ letters)
         inexact = [n for n in body_nodes if (isinstance(n, (ast.BinOp, ast.AugAssign)) and isinstance(n.op, ast.Div)) or
                    (isinstance(n, ast.Call) and sa.call_name(n) in ('float', 'math.log', 'math.pow', 'math.fmod', 'math.log10', 'math.log2', 'pow')
@@ -301,6 +323,95 @@ def _r3(model, res, m):
                                   'digits are turned into letters with %s; the offset must be 65 or 97' % src(n), func=fname)
             subs = [n for n in body_nodes if isinstance(n, ast.Subscript) and isinstance(n.value, ast.Name) and n.value.id == aname]
             res.ob('R3', '%s:%s' % (m.name, fname), 'letters produced by chr() or the alphabet constant', bool(chrs) or bool(subs))
+
+
+def _lin(node, env, consts):
+    """Integer-linear value of an expression over the names as they are at the start of the block: ({name: coeff}, const) or None.
+    int()/math.floor()/math.trunc() of a value are the value (the quantities are integers here)."""
+    from fractions import Fraction
+    c = guards.const_number(node, consts)
+    if c is not None:
+        return ({}, c)
+    if isinstance(node, ast.Name):
+        return env.get(node.id, ({node.id: Fraction(1)}, Fraction(0)))
+    if isinstance(node, ast.Call) and sa.call_name(node) in ('int', 'math.floor', 'math.trunc', 'floor') and len(node.args) == 1:
+        return _lin(node.args[0], env, consts)
+    if isinstance(node, ast.BinOp) and isinstance(node.op, (ast.Add, ast.Sub)):
+        a, b = _lin(node.left, env, consts), _lin(node.right, env, consts)
+        if a is None or b is None:
+            return None
+        sg = 1 if isinstance(node.op, ast.Add) else -1
+        co = dict(a[0])
+        for kk, vv in b[0].items():
+            co[kk] = co.get(kk, 0) + sg * vv
+        return (dict((kk, vv) for kk, vv in co.items() if vv != 0), a[1] + sg * b[1])
+    if isinstance(node, ast.UnaryOp) and isinstance(node.op, ast.USub):
+        a = _lin(node.operand, env, consts)
+        return None if a is None else (dict((kk, -vv) for kk, vv in a[0].items()), -a[1])
+    return None
+
+
+def _congruent(a, b, radix):
+    # the same dividend up to a multiple of the radix:  (x - 26) // 26  is  x // 26 - 1
+    return a[0] == b[0] and (a[1] - b[1]) % radix == 0
+
+
+def dividend_mismatches(stmts, consts, radix_ok, radix=26):
+    """Within one straight-line step (the statements of a block, in order), the dividends of ``x % R`` and of ``x // R`` (R a radix):
+    returns [(mod node, its dividend, floordiv node, its dividend)] where a step takes the digit and the carry from different
+    dividends.  Dividends are compared as linear forms over the values at the start of the block."""
+    env = {}
+    mods, divs = [], []
+
+    def visit_expr(e):
+        for n in ast.walk(e):
+            if isinstance(n, ast.BinOp) and isinstance(n.op, (ast.Mod, ast.FloorDiv)) and radix_ok(guards.const_number(n.right, consts)):
+                (mods if isinstance(n.op, ast.Mod) else divs).append((n, _lin(n.left, env, consts)))
+            if isinstance(n, ast.Call) and sa.call_name(n) == 'divmod' and len(n.args) == 2 and radix_ok(guards.const_number(n.args[1], consts)):
+                d = _lin(n.args[0], env, consts)
+                mods.append((n, d))
+                divs.append((n, d))
+    for st in stmts:
+        if isinstance(st, (ast.If, ast.For, ast.While, ast.Try, ast.With, ast.FunctionDef, ast.Match)):
+            # a nested block is a step of its own; names it may rebind are unknown afterwards
+            for nm in guards.assigned_names(st):
+                env[nm] = None
+            continue
+        if isinstance(st, ast.AugAssign) and isinstance(st.target, ast.Name):
+            visit_expr(st.value)
+            if isinstance(st.op, (ast.Mod, ast.FloorDiv)) and radix_ok(guards.const_number(st.value, consts)):
+                (mods if isinstance(st.op, ast.Mod) else divs).append((st, _lin(st.target, env, consts)))
+                env[st.target.id] = None
+            else:
+                shim = ast.BinOp(left=ast.Name(id=st.target.id, ctx=ast.Load()), op=st.op, right=st.value)
+                env[st.target.id] = _lin(shim, env, consts)
+            continue
+        visit_expr(st)
+        if isinstance(st, ast.Assign):
+            val = _lin(st.value, env, consts)
+            for t in st.targets:
+                if isinstance(t, ast.Name):
+                    env[t.id] = val
+                else:
+                    for nm in guards.assigned_names(t):
+                        env[nm] = None
+    env_none = None
+    out = []
+    known_m = [(n, d) for n, d in mods if d is not None]
+    known_d = [(n, d) for n, d in divs if d is not None]
+    if known_m and known_d:
+        for n, d in known_d:
+            if not any(_congruent(d, dm, radix) for _, dm in known_m):
+                out.append((known_m[0][0], known_m[0][1], n, d))
+    return out
+
+
+def _show_lin(d):
+    co, c = d
+    parts = ['%s%s' % ('' if v == 1 else '%s*' % v, k_) for k_, v in sorted(co.items())]
+    if c != 0 or not parts:
+        parts.append(str(c))
+    return ' + '.join(parts).replace('+ -', '- ')
 
 
 def _r4(model, res, m):
